@@ -15,6 +15,10 @@ theorem route_shutdown (wk : List (Wk τ)) (k : Nat) :
   | none => rfl
   | some w => simp [route]
 
+theorem mem_of_mem_dropLast' {α : Type} (l : List α) (x : α) (h : x ∈ l.dropLast) : x ∈ l := by
+  rw [List.dropLast_eq_take] at h
+  exact List.mem_of_mem_take h
+
 theorem qnD_of_flag {s : Load.State τ} {e : Env} {k : Nat} (h : e.flags.shuttingDown k = true) : QnD s e k := by
   unfold QnD
   split
@@ -30,7 +34,8 @@ theorem recv_drop {c c' : Ctl.State (Load.State τ) τ} {k : Nat} {w : Wk τ} {m
     (hb : w.alive = true → (c'.env.flags.get k).broken = (c.env.flags.get k).broken) :
     WkInv c' k ({ w with outbox := rest } : Wk τ) := by
   have hsd : c'.env.flags.shuttingDown k = true := by unfold Flags.shuttingDown; rw [hd']; rfl
-  refine ⟨h.loopCb, h.running, h.have1, h.init0, h.early, ?_, h.latePc, h.inboxK, h.ownP, ?_, ?_, ?_, ?_, ?_, ?_, ?_, ?_, ?_, ?_, ?_, ?_, ?_, ?_, ?_⟩
+  refine ⟨h.loopCb, h.running, h.have1, h.init0, h.early, ?_, h.latePc, h.inboxK, h.ownP, ?_, ?_, ?_, ?_, ?_, ?_, ?_, ?_, h.noticeLast, ?_,
+    ?_, ?_, ?_, ?_, ?_, ?_, ?_⟩
   · intro hal hbt
     have := (h.boot0 hal hbt).1
     rw [ho] at this; cases this
@@ -45,6 +50,13 @@ theorem recv_drop {c c' : Ctl.State (Load.State τ) τ} {k : Nat} {w : Wk τ} {m
   · intro _; exact hd'
   · rw [ha]; exact h.inactive
   · intro _; exact hd'
+  · intro hbt
+    have := h.bootNoReady hbt
+    simp only [flight, ho, List.filterMap_cons, List.any_append, Bool.or_eq_false_iff] at this ⊢
+    refine ⟨this.1, ?_⟩
+    cases hx : evOf k m with
+    | none => rw [hx] at this; exact this.2
+    | some e => rw [hx] at this; simp only [List.any_cons, Bool.or_eq_false_iff] at this; exact this.2.2
   · rw [hse]; exact h.shut
   · intro _ hh; rw [hsd] at hh; cases hh
   · intro hh; rw [hd'] at hh; cases hh
@@ -69,8 +81,12 @@ theorem recv_move {c : Ctl.State (Load.State τ) τ} {k : Nat} {w : Wk τ} {m : 
     intro hk
     have := h.inactiveDown hk
     rw [hnd] at this; cases this
+  have hnn0 : w.posted.any isNotice = false := by
+    cases hh : w.posted.any isNotice with
+    | false => rfl
+    | true => have := h.noticeDown hh; rw [hnd] at this; cases this
   refine ⟨h.loopCb, h.running, h.have1, h.init0, h.early, ?_, h.latePc, h.inboxK, ?_, ?_, ?_, h.notBroken, ?_, ?_, ?_, ?_, h.inactiveDown,
-    h.shut, ?_, ?_, ?_, ?_, h.keysActive, ?_⟩
+    ?_, by rw [hfl]; exact h.bootNoReady, h.shut, ?_, ?_, ?_, ?_, h.keysActive, ?_⟩
   · intro hal hbt
     have := (h.boot0 hal hbt).1
     rw [ho] at this; cases this
@@ -99,6 +115,13 @@ theorem recv_move {c : Ctl.State (Load.State τ) τ} {k : Nat} {w : Wk τ} {m : 
     simp only [List.any_append, hnn, Bool.or_false] at hh
     exact h.noticeDown hh
   · intro hk; exact absurd hka hk
+  · -- only the last posted event may be a death notice
+    rw [List.any_eq_false]
+    intro x hx
+    have hx' : x ∈ w.posted ++ posts := mem_of_mem_dropLast' _ _ hx
+    rcases List.mem_append.1 hx' with hx' | hx'
+    · have := List.any_eq_false.1 hnn0 x hx'; simpa using this
+    · have := List.any_eq_false.1 hnn x hx'; simpa using this
   · rw [hfl]; exact h.ready
   · rw [hfl]; exact h.readyTail
   · rw [hfl, hcp]; exact h.readyColl
@@ -128,7 +151,11 @@ theorem recv_writeoff {c c' : Ctl.State (Load.State τ) τ} {k : Nat} {w : Wk τ
     intro hk
     have := h.inactiveDown hk
     rw [hnd] at this; cases this
-  refine ⟨h.loopCb, h.running, h.have1, h.init0, h.early, ?_, h.latePc, ?_, ?_, ?_, ?_, hb, ?_, ?_, ?_, ?_, ?_, ?_, ?_, ?_, ?_, ?_, ?_, ?_⟩
+  have hnn0 : w.posted.any isNotice = false := by
+    cases hh : w.posted.any isNotice with
+    | false => rfl
+    | true => have := h.noticeDown hh; rw [hnd] at this; cases this
+  refine ⟨h.loopCb, h.running, h.have1, h.init0, h.early, ?_, h.latePc, ?_, ?_, ?_, ?_, hb, ?_, ?_, ?_, ?_, ?_, ?_, ?_, ?_, ?_, ?_, ?_, ?_, ?_, ?_⟩
   · intro hal hbt
     have := (h.boot0 hal hbt).1
     rw [ho] at this; cases this
@@ -150,6 +177,15 @@ theorem recv_writeoff {c c' : Ctl.State (Load.State τ) τ} {k : Nat} {w : Wk τ
   · intro _; exact hd'
   · intro hk; rw [ha] at hk; exact absurd hka hk
   · intro _; exact hd'
+  · simp only [List.dropLast_concat]; exact hnn0
+  · intro hbt
+    have := h.bootNoReady hbt
+    simp only [flight, ho, List.filterMap_cons, List.any_append, Bool.or_eq_false_iff] at this ⊢
+    refine ⟨⟨this.1, ?_⟩, ?_⟩
+    · cases notice <;> simp [isNotice] at hno <;> simp [isReady]
+    · cases hx : evOf k m with
+      | none => rw [hx] at this; exact this.2
+      | some e => rw [hx] at this; simp only [List.any_cons, Bool.or_eq_false_iff] at this; exact this.2.2
   · intro hal hse; rw [shutSeen_def]; exact hshut hal hse
   · intro _ hh; rw [hsd] at hh; cases hh
   · intro hh; rw [hd'] at hh; cases hh
